@@ -165,6 +165,35 @@ def f32(x):
     return struct.unpack("<f", struct.pack("<f", x))[0]
 
 
+def dt_text(v):
+    """the DSP0004 text of a CIMDateTime, written from its public state
+    (datetime incl. tzinfo / timedelta / precision) by the harness itself:
+    str(v) and minutes_from_utc are code under test (the encoder writes
+    str(v)), the projection of the ORIGINAL must not go through them"""
+    prec = v.precision
+    if v.is_interval:
+        td = v.timedelta
+        body = "%08d%02d%02d%02d.%06d" % (
+            td.days, td.seconds // 3600, td.seconds // 60 % 60,
+            td.seconds % 60, td.microseconds)
+        tail = ":000"
+    else:
+        d = v.datetime
+        body = "%04d%02d%02d%02d%02d%02d.%06d" % (
+            d.year, d.month, d.day, d.hour, d.minute, d.second, d.microsecond)
+        off = d.utcoffset()
+        # exact integer arithmetic on the normalised timedelta
+        secs = 0 if off is None else off.days * 86400 + off.seconds
+        if secs % 60 or (off is not None and off.microseconds):
+            return "UNCLASSIFIED:utcoffset"
+        m = secs // 60 if secs >= 0 else -((-secs) // 60)
+        tail = "%s%03d" % ("+" if m >= 0 else "-", abs(m))
+    if prec is not None:
+        body = "".join(ch if (i < prec or ch == ".") else "*"
+                       for i, ch in enumerate(body))
+    return body + tail
+
+
 def vtok(v, typ):
     """(value token, python-type token, class projection) of one scalar"""
     if v is None:
@@ -176,7 +205,7 @@ def vtok(v, typ):
     if isinstance(v, bool):
         return "b:" + ("T" if v else "F"), "boolean", []
     if isinstance(v, CIMDateTime):
-        return "d:" + str(v), "datetime", []
+        return "d:" + dt_text(v), "datetime", []
     if isinstance(v, pywbem.CIMInt):
         return "i:%d" % int(v), v.cimtype, []
     if isinstance(v, int):
@@ -392,6 +421,25 @@ DT_VC = ["ts", "tsneg", "iv", "star", "ivstar"]
 BOOL_VC = ["T", "F"]
 CHAR_VC = ["ltr", "sp", "tab", "lf", "lt", "gt", "amp", "quot", "apos",
            "rbr", "nbsp"]           # "cr" is driven separately (see c01.py)
+# UTC offset classes of spec/CimWire.tla DtOffsetClass: zero / whole hours east
+# and west / NOT whole hours east and west (India, Nepal, Chatham;
+# Newfoundland, Marquesas, half an hour, one minute, the largest offset);
+# full timestamps and timestamps with reduced precision in every class
+DT_OFFSET_CLASSES = ["zero", "poswhole", "negwhole", "posfrac", "negfrac"]
+DT_OFFSETS = {"zero": ["+000"],
+              "poswhole": ["+060", "+120", "+540", "+840"],
+              "negwhole": ["-060", "-300", "-480", "-720"],
+              "posfrac": ["+330", "+345", "+765", "+030", "+001", "+999",
+                          "+570"],
+              "negfrac": ["-210", "-570", "-030", "-001", "-999", "-150",
+                          "-090", "-059", "-061"]}
+DT_BODIES = ["20260925123456.123456", "19991231235959.999999",
+             "20240229010203.000001", "20200101120000.000000",
+             "202001011200**.******", "20260925******.******",
+             "2026**********.******", "20260925123456.12****"]
+_VC_OF_OFFSET_TOKEN = {"d:ts": "ts:zero", "d:ts+h": "ts:poswhole",
+                       "d:ts-h": "ts:negwhole", "d:ts+m": "ts:posfrac",
+                       "d:ts-m": "ts:negfrac", "d:ts-s": "ts:negfrac"}
 DT_REP = {"ts": ["20260925123456.123456+120", "19991231235959.999999+000",
                  "00010101000000.000000+000"],
           "tsneg": ["20240229010203.000001-720", "99991231235959.999999-001"],
@@ -413,6 +461,9 @@ def conc_scalar(typ, vc, rng):
     if typ == "boolean":
         return t == "T"
     if typ == "datetime":
+        if t.startswith("ts:"):
+            return CIMDateTime(rng.choice(DT_BODIES) +
+                               rng.choice(DT_OFFSETS[t[3:]]))
         return CIMDateTime(rng.choice(DT_REP[t]))
     if typ in INT_RANGE:
         lo, hi = INT_RANGE[typ]
@@ -1026,7 +1077,7 @@ _VC_OF_TOKEN = {"i:min": "min", "i:max": "max", "i:int": "int", "b:T": "T",
                 "r:nan": "nan", "r:inf": "inf"}
 
 
-def from_builder(recs, rng, rels=None):
+def from_builder(recs, rng, rels=None, refine_dt=True):
     """element records of the TLC builder machine -> abstract elements.
     Value classes TLC left open (which boundary, which datetime form) are
     refined at random.  `rels`: TLC's KeyRel case per element (keybindings
@@ -1064,14 +1115,15 @@ def from_builder(recs, rng, rels=None):
                 if r["type"] in ("string", "char16"):
                     e["vc"] = list(r["cls"][k])
                 else:
-                    vc = _VC_OF_TOKEN[v]
+                    vc = _VC_OF_OFFSET_TOKEN.get(v) or _VC_OF_TOKEN[v]
                     if vc in ("min", "max") and rng.random() < 0.3:
                         vc = rng.choice(INT_VC)
                     if vc == "frac" and rng.random() < 0.5:
                         vc = rng.choice(REAL_VC)
                     if vc == "inf" and rng.random() < 0.5:
                         vc = "ninf"
-                    if vc in ("ts", "iv") and rng.random() < 0.5:
+                    if refine_dt and vc in ("ts:zero", "iv") and \
+                            rng.random() < 0.5:
                         vc = rng.choice(DT_VC)
                     e["vc"] = [vc]
                 break
